@@ -627,6 +627,7 @@ Proof.
       destruct (Hq3 q cq Hfq) as [x [px [cx [G1 [G2 [G3 [G4 G5]]]]]]]. exists x, px, cx. repeat split; auto.
       * destruct (HF x cx) as [H1 _]. congruence.
       * eapply cells_by_anc; eauto. intros a c Ha Hfa _. destruct (HF a c) as [H1 _]. exact H1.
+    + apply (drag_kept D h _ F HI CB). intros a c Hfa. destruct (HF a c) as [H1 _]. exact H1.
   - eapply cells_by_stable; eauto. intros a c Hfa. destruct (HF a c) as [H1 [_ [_ [H4 [_ H6]]]]]. auto.
 Qed.
 
